@@ -264,3 +264,20 @@ def gen_c02(ctx):
 def c02(ctx):
     C = _check()
     return [C.TVJob('ops', gen_c02(ctx), 'tvc02', chunks=16, deadline_s=60 if ctx.quick else 300, prefix='C02.', extra=['--assume-fp-range'])]
+
+
+def gen_py(ctx, prop):
+    def g(d):
+        import subprocess
+        subprocess.check_call(['python3', H(ctx, prop, 'gen.py'), d, ctx.tier], stdout=subprocess.DEVNULL)
+    return g
+
+
+@prop('C03', level='translation_validation', title='mandated run-time panics')
+def c03(ctx):
+    C = _check()
+    return [
+        C.TVJob('forms', gen_py(ctx, 'C03'), 'tvc03', chunks=12, deadline_s=60 if ctx.quick else 300, prefix='C03.'),
+        rt_job(ctx, 'rtchecks', [H(ctx, 'C05', 'slice_h.go'), H(ctx, 'C03', 'rt_h.go')], unwind=100, deadline_s=600,
+               only=['H_slice3_et1', 'H_slice3_et24', 'H_makeslice_et1', 'H_makeslice_et8', 'H_makeslice_et0', 'H_strslice', 'H_assert_flags']),
+    ]
